@@ -424,14 +424,18 @@ Print Assumptions C12_parse_total_partial_nopanic_deferred_block.
     [x] (ParseAML starts it at the root) that parses every pending deferred object it meets (row with pOpFlagDeferParsing and
     the handle of the table being parsed: Buffer, While, BankField; the walk does not descend below such an object) as in the
     previous theorem and otherwise follows the first / next links, re-reading `next` after each child.  [dcnt s g x n]
-    describes what the walk will meet: [n] pending deferred objects (one with a field list - a BankField - has a parent).
+    describes what the walk will meet: [n] pending deferred objects (one with a field list - a BankField - has a parent;
+    none has the internal opcode pOpIntNamePathOrMethodCall).
     With room in the pool for [n] blocks (8 objects per table byte + 3 each) and the hypotheses of the previous theorem:
     NEVER a panic, and [R], valid indexes, the reader invariant, live scopes and (after success) the typing of the Methods
     hold again.  The proof shows that a block changes no payload field other than values, that the child list of an object
     that is not itself pending changes only when it holds a pending BankField, whose parse inserts its NamedFields right
     behind it into the list the walk is iterating - objects that are new, childless and carry the NamedField row, so the
     walk steps over them at no cost - and (partial correctness, ParserTotalDeferH) that no parser function changes the
-    table handle, so the count of what is still to be visited is stable.
+    table handle, so the count of what is still to be visited is stable.  The typing hypothesis of resolveMethodCalls
+    (every pOpIntNamePathOrMethodCall object carries a []byte) is preserved: in the mode of the deferred pass no parser
+    function creates such an object (nextOpcode never accepts that opcode; ParserTotalDeferM) and only pending objects
+    get a new value.
     Fuel exhaustion is not excluded.  Not covered: the derivation of [TM NoX] and [dcnt] from the earlier passes. *)
 Theorem C12_parse_total_partial_nopanic_deferred_walk :
   forall (tbls : list (list N)) (fuel parseFuel : nat) (x n : N) (s : pstate) (g : ghost),
@@ -444,9 +448,39 @@ Theorem C12_parse_total_partial_nopanic_deferred_walk :
     | Ok (res, s') => exists g', R (p_tree s') g' /\
         (forall i o, TreeSpec.get (p_tree s') i = Some o -> o_opcode o <> opFreed -> opInfo (o_infoIndex o) <> None) /\
         rok (p_r s') /\ Forall (glive g') (p_scopeStack s') /\
-        gext g g' /\ glive g' 0 /\ lp s' <= lp s + n * (8 * r_len (p_r s) + 3) /\ (res = ROk -> TM NoX s' g')
+        gext g g' /\ glive g' 0 /\ lp s' <= lp s + n * (8 * r_len (p_r s) + 3) /\ (res = ROk -> TM NoX s' g') /\
+        ((forall i o, TreeSpec.get (p_tree s) i = Some o -> o_opcode o <> opFreed -> o_opcode o = aml_pOpIntNamePathOrMethodCall ->
+                      exists tbl sl, o_value o = Some (VBytes tbl sl)) ->
+         (forall i o, TreeSpec.get (p_tree s') i = Some o -> o_opcode o <> opFreed -> o_opcode o = aml_pOpIntNamePathOrMethodCall ->
+                      exists tbl sl, o_value o = Some (VBytes tbl sl)))
     | Panic => False
     | OutOfFuel => True
     end.
 Proof. exact deferred_walk_never_panics. Qed.
 Print Assumptions C12_parse_total_partial_nopanic_deferred_walk.
+
+(** [parse_total_partial] (13), passes chained: everything ParseAML does after the resolve loop ([parse_tail], the last three
+    passes exactly as in parseAML_body - lemma parseAML_body_tail): parseDeferredBlocks(0), resolveMethodCalls(0),
+    connectNonNamedObjArgs(0), each entered only if the previous one succeeded.  From any state with the hypotheses of the
+    walk theorem for the root, a parentless root and the typing hypothesis of resolveMethodCalls: NEVER a panic, and when the
+    tail returns (true or false) the pool satisfies [R], valid opcode-table indexes and slices-inside.  Fuel exhaustion is
+    not excluded; the hypotheses are not derived from passes 1-3. *)
+Theorem C12_parse_total_partial_nopanic_tail :
+  forall (tbls : list (list N)) (f4 pf f5 f6 : nat) (n : N) (s : pstate) (g : ghost),
+    R (p_tree s) g ->
+    (forall i o, TreeSpec.get (p_tree s) i = Some o -> o_opcode o <> opFreed -> opInfo (o_infoIndex o) <> None) ->
+    rok (p_r s) -> Forall (glive g) (p_scopeStack s) -> Inv tbls s ->
+    glive g 0 -> groot g 0 -> TM NoX s g ->
+    (forall i o, TreeSpec.get (p_tree s) i = Some o -> o_opcode o <> opFreed -> o_opcode o = aml_pOpIntNamePathOrMethodCall ->
+                 exists tbl sl, o_value o = Some (VBytes tbl sl)) ->
+    dcnt s g 0 n ->
+    lp s + n * (8 * r_len (p_r s) + 3) + 4 <= InvalidIndex ->
+    match parse_tail f4 pf f5 f6 s with
+    | Ok (_, s') => exists g', R (p_tree s') g' /\
+        (forall i o, TreeSpec.get (p_tree s') i = Some o -> o_opcode o <> opFreed -> opInfo (o_infoIndex o) <> None) /\
+        pool_ok (p_tables s') (p_tree s')
+    | Panic => False
+    | OutOfFuel => True
+    end.
+Proof. exact deferred_tail_never_panics. Qed.
+Print Assumptions C12_parse_total_partial_nopanic_tail.
